@@ -11,9 +11,9 @@ CHECKS = {
  "C18": dict(
   text="Lean theorems (C18_side_prefix, C18_side_complete, C18_partition, C18_pred_once, C18_source_once, "
        "C18_next_total, C18_exhaust) about an operational model of split (source, condition, one map of (element, "
-       "decision) pairs, one tee buffer with two cursors, two generators) for every source, every condition and every sequence of next() calls; tied to "
+       "decision) pairs, one tee buffer with two cursors, two result iterators that stay finished) for every source, every condition and every sequence of next() calls; tied to "
        "aiuti.itertools.split by a bounded-exhaustive differential run that also compares pull and predicate logs",
-  note=NOTE_COMMON + "Modelled, not verified: CPython tee/map/generator pull order (validated by comparing "
+  note=NOTE_COMMON + "Modelled, not verified: CPython tee/map pull order and the iterator protocol of the two result objects (validated by comparing "
        "pull and predicate logs on every case); exhaust() is modelled as a fold.",
   tech="Lean 4 proof (canonical form of the operational model, induction over next() "
        "sequences) + model/implementation differential", ref="§5 C18"),
@@ -378,7 +378,7 @@ def main():
      "notes": "See DESIGN.md. Genuine defects repaired in /repo by 'fix:' commits: 3779468 (F1, C15), 90a667a "
               "(F2, C01/C06), ab26aa5 (F3, C12), 9d605d2 (F4, C06), 72f5b5b (F6, C09), 9d9dc18 (F9, C12), 30ffe8c (F10, C03), "
               "b10dabe (F11, C04), a2363a7 (F12, C04), bc7512c (F13, C02/C12), a1c15da (F14, C15/C08), 246fb33 (F15, C20), df35f99 (F16, C12), fbcbea6 (F17, C04), "
-              "acc6cdb (F18, C10), 31f6c48 (F19, C07), 0d71334 (F20, C16), dfc1e75 (F21, C02/C13), be153ad (F22, C03/C07), 79af58b (F23, C18), 75f3c61 (F24, C20), d1c8bd9 (F25, C04), 39a39ee (F26, C13), 79a0d7d (F27, C16), 2a5879d (F28, C11/C15), 730e82f (F29, C05/C01), bf6dcaf (F30, C17), 75b611c (F31, C16), 51e1c49 (F32, C16), 4d988e0 (F33, C20), c794291 (F34, C17), 369f390 (F35, C11/C15), f63dd37 (F36, C13), f4eeaeb (F37, C10), c698ebe (F38, C05/C06), 9621836 (F39, C18); known, not repaired: F5 (C07 shutdown hang), F7 (C17 borrowed loop); see known_findings.json.",
+              "acc6cdb (F18, C10), 31f6c48 (F19, C07), 0d71334 (F20, C16), dfc1e75 (F21, C02/C13), be153ad (F22, C03/C07), 79af58b (F23, C18), 75f3c61 (F24, C20), d1c8bd9 (F25, C04), 39a39ee (F26, C13), 79a0d7d (F27, C16), 2a5879d (F28, C11/C15), 730e82f (F29, C05/C01), bf6dcaf (F30, C17), 75b611c (F31, C16), 51e1c49 (F32, C16), 4d988e0 (F33, C20), c794291 (F34, C17), 369f390 (F35, C11/C15), f63dd37 (F36, C13), f4eeaeb (F37, C10), c698ebe (F38, C05/C06), 9621836 (F39, C18), b8f6855 (F40, C18), 289dcd4 (F41, C13), 8f4cd84 (F42, C17), fe80106 (F43, C04), a36730e (F44, C05/C06), 3f21fa2 (F45, C16); known, not repaired: F5 (C07 shutdown hang), F7 (C17 borrowed loop), F46 (C01 dead-lock of the cache lock with a lock-protected cache mapping when the garbage collector finalizes an abandoned call inside the mapping); see known_findings.json.",
      "not_applicable": [],
     }
     for pid in sorted(CHECKS):
